@@ -760,7 +760,7 @@ func (fx *FuncExec) evalSpecCall(env *SpecEnv, x *ast.CallExpr) Val {
 		return bv(fmt.Sprintf("(forall ((%s %s)) %s)", bn, ks, imp(and(not(eq(m.S, "0")), sel(sel(dh, m.S), bn)), body.S)))
 	case "held":
 		l := fx.evalLoc(env, x.Args[0])
-		key := fx.locString(l)
+		key := fx.canonKey(fx.locString(l))
 		if h, ok := env.state().locks[key]; ok {
 			return bv(h)
 		}
